@@ -755,6 +755,17 @@ fn sha_mem_case(len: u64, addr_i: usize, kind: usize, rng: &mut Rng8) -> (Case, 
     while bytes.len() % 16 != 0 {
         bytes.push(0);
     }
+    let mut cname = cname;
+    if kind % 4 == 3 && rng.gen_bool(0.5) {
+        // explicit zero padding area followed by one junk word just after it: memory beyond the
+        // padding area is outside the contract's precondition and must not influence the digest
+        let padded = len as usize + ((55usize.wrapping_sub(len as usize)) % 64) + 9;
+        bytes.resize(padded, 0);
+        for _ in 0..16 {
+            bytes.push(rng.gen_range(1..=255));
+        }
+        cname = "random+junk-after-padding";
+    }
     let w = words_be(&bytes);
     let n = w.len() / 4;
     // memory word k = [u[4k+3], u[4k+2], u[4k+1], u[4k]]
